@@ -336,7 +336,8 @@ package chord
 //@ func (n *LocalNode) FinishLeave(stabilize bool, release bool) (err error)
 //@   opt frame=off
 //@   safety off
-//@   requires started: n.state != nil && n.state.history != nil
+//@   use ids48
+//@   requires started: n.state != nil && n.state.history != nil && n.ID() < 281474976710656
 //@   ghost tries int = 0
 //@   ghost took bool = false
 //@   ghost sets int = 0
@@ -351,7 +352,8 @@ package chord
 //@ func (n *LocalNode) FinishJoin(stabilize bool, release bool) (err error)
 //@   opt frame=off
 //@   safety off
-//@   requires started: n.state != nil && n.state.history != nil
+//@   use ids48
+//@   requires started: n.state != nil && n.state.history != nil && n.ID() < 281474976710656
 //@   ghost tries int = 0
 //@   ghost took bool = false
 //@   ghost sets int = 0
